@@ -558,17 +558,9 @@ def rule_exec(ctx, R, F):
             for d in x['d']:
                 if d['name'] == 'instr' or d.get('ty', '').startswith('randomx::Instruction'):
                     ren[d['id']] = 'IN'
-    exp = {
-        'ISUB_R': ['(R[IN.dst] -= R[IN.src])'], 'IXOR_R': ['(R[IN.dst] ^= R[IN.src])'], 'IADD_RS': ['(R[IN.dst] += (R[IN.src] << IN.getModShift()))'], 'IMUL_R': ['(R[IN.dst] *= R[IN.src])'],
-        'IROR_C': ['(R[IN.dst] = rotr(R[IN.dst], IN.getImm32()))'],
-        'IADD_C7': ['(R[IN.dst] += signExtend2sCompl(IN.getImm32()))'], 'IADD_C8': ['(R[IN.dst] += signExtend2sCompl(IN.getImm32()))'], 'IADD_C9': ['(R[IN.dst] += signExtend2sCompl(IN.getImm32()))'],
-        'IXOR_C7': ['(R[IN.dst] ^= signExtend2sCompl(IN.getImm32()))'], 'IXOR_C8': ['(R[IN.dst] ^= signExtend2sCompl(IN.getImm32()))'], 'IXOR_C9': ['(R[IN.dst] ^= signExtend2sCompl(IN.getImm32()))'],
-        'IMULH_R': ['(R[IN.dst] = mulh(R[IN.dst], R[IN.src]))'], 'ISMULH_R': ['(R[IN.dst] = smulh(R[IN.dst], R[IN.src]))'],
-    }
+    from rules import interpsem
+    interpsem.rule_ss_exec_terms(ctx, R, F, cases, f)
     with astq.renaming(ren), astq.nocasts():
-        for t, e in sorted(exp.items()):
-            got = [showv(s) for s in cases.get(t, []) if s['k'] != 'Break']
-            R.eq('%s semantics' % t, '%s:%d' % (f['file'], f['line']), e, got)
         rcp = cases.get('IMUL_RCP', [])
         import decoder as _dec
         got = []
